@@ -830,6 +830,12 @@ class MiniInterp:
                 if kk not in obj.items:
                     obj.items[kk] = Sym(f"{obj.name}[{k.name if isinstance(k, Sym) else kk}]", _open=True)
                 return obj.items[kk]
+            if isinstance(obj, Sym) and obj.cls is not None and not obj.open:
+                gi = obj.cls.find_method("__getitem__")
+                if gi is not None:
+                    return self.call(self.prj.func(gi.qual), [k], {}, obj)
+                if not obj.cls.external_bases():
+                    raise PyRaise("TypeError", n)    # an instance of a project class without __getitem__ is not subscriptable
             if obj is None or isinstance(obj, (bool, int, float)):
                 raise PyRaise("TypeError", n)        # None[...] / 3[...]: not subscriptable
             raise Unknown(f"subscript of {type(obj).__name__}")
